@@ -111,10 +111,15 @@ impl Committee {
 }
 
 pub fn committee_with(seed: u64, weights: &[u64], fork: u64, first_block: u64, sel: LeaderSelection) -> Committee {
+    committee_elig(seed, weights, fork, first_block, sel, u32::MAX)
+}
+
+/// Like `committee_with`; validator i (schedule order) is leader-eligible iff bit i of `leaders` is set.
+pub fn committee_elig(seed: u64, weights: &[u64], fork: u64, first_block: u64, sel: LeaderSelection, leaders: u32) -> Committee {
     let mut keys = validator_keys(seed, weights.len());
     keys.sort_by_key(|k| k.public());
     let schedule = Schedule::new(
-        keys.iter().zip(weights).map(|(k, w)| ValidatorInfo { key: k.public(), weight: *w, leader: true }),
+        keys.iter().zip(weights).enumerate().map(|(i, (k, w))| ValidatorInfo { key: k.public(), weight: *w, leader: leaders >> i & 1 == 1 }),
         sel,
     )
     .expect("valid schedule");
